@@ -109,6 +109,8 @@ def edit_list(items, tier):
         'tail-blank': lambda a: setattr(a, 'tail', ''), 'tail-long': lambda a: setattr(a, 'tail', '           C      junk beyond column 80'),
         'serial-hy36': lambda a: setattr(a, 'serial', 'A%04d' % (int(a.serial) % 10000 if a.serial.strip().lstrip('-').isdigit() else 0)),
         'serial-same': lambda a: setattr(a, 'serial', '    1'),
+        'serial-descending': lambda a: setattr(a, 'serial', '%5d' % (90000 - (abs(a.x) * 7 + abs(a.y) * 3 + abs(a.z)) % 80000)),
+        'serial-restarting': lambda a: setattr(a, 'serial', '%5d' % (1 + (abs(a.x) + abs(a.y) + abs(a.z)) % 7)),
         # values that differ from atom to atom / between alternate locations
         'occ-by-altloc': lambda a: setattr(a, 'occ', {' ': '  1.00', 'A': '  0.30', '1': '  0.30', 'B': '  0.70', '2': '  0.70', 'C': '  0.10'}.get(a.alt, '  0.45')),
         'occ-by-altloc-reversed': lambda a: setattr(a, 'occ', {' ': '  0.20', 'A': '  0.60', '1': '  0.60', 'B': '  0.15', '2': '  0.15', 'C': '  0.25'}.get(a.alt, '  0.45')),
@@ -143,6 +145,13 @@ def inputs(tier):
                      ([['A', 'ASP'], ['B', 'ASPs']], [['A', 'LYS'], ['B', 'LYSs'], ['C', 'LYS']]),
                      ([[' ', 'ASP'], ['B', 'ASPs']], [['B', 'LYSs'], ['C', 'LYS']])):
         out.append(dict(src='c08', d=dict(kind='alt', layout=lay, lys=lys)))
+    # a second conformation that consists of copies only (one atom elsewhere has an alternate location): ligand site, salt bridges
+    for d in (corpus.cutout_desc('4DFR', 'A', 26, 9.0), corpus.cutout_desc('1HPX', 'A', 24, 9.0), corpus.cluster_desc(('ASP', 'ARG', 'GLU'), 'line', 3.0, 'deep')):
+        out.append(dict(src='altcopy', d=d))
+    # metal sites with a ligand atom closer than 2.0 A (bonded by the distance rule): a carboxylate on zinc as in 1FTJ
+    out.append(dict(src='corpus', d=corpus.cutout_desc('1FTJ', 'A', 42, 9.0)))
+    for a, ion_, dist in (('GLU', 'ZN', 1.95), ('HIS', 'ZN', 1.98), ('ASP', 'CA', 1.9), ('CYS', 'ZN', 1.99)):
+        out.append(dict(src='closeion', a=a, ion=ion_, dist=dist))
     # models whose last chain is not closed by TER
     out.append(dict(src='repeat', d=corpus.pair_desc('ASP', 'LYS', 2.8, 'exposed'), noter=True))
     out.append(dict(src='repeat', d=corpus.window_desc('1HPX', 'A', 20, 8), second=corpus.window_desc('1HPX', 'B', 40, 6), noter=True))
@@ -155,7 +164,7 @@ def plan(tier, seed):
     return dict(shards=shards, exhaustive=True,
                 rule=('inputs: 5-residue windows, 8 A cut-outs, docked pairs (4x6 kinds incl. ligands/ions), clusters; edits: %d ignorable '
                       'residue names x ATOM/HETATM x own/other chain x 4 positions, %d other record types x positions, %d hydrogen names x '
-                      'heavy atoms of one residue, 20 column rewrites (incl. values that differ between alternate locations); thorough: also every pair of edits from two different families '
+                      'heavy atoms of one residue, 22 column rewrites (incl. values that differ between alternate locations); thorough: also every pair of edits from two different families '
                       '(first edit of each family per position class); options: default for all, --protonate-all and keep-protons feedback '
                       'per input. non-trivial = distinct (input, edit)') % (len(IGNORABLE), len(OTHER_RECORDS), len(H_NAMES)),
                 bounds=dict(inputs=len(ins), max_simultaneous_edits=1 if tier == 'quick' else 2), samples=[ins[0]])
@@ -204,6 +213,17 @@ def run_case(case, ctx, acc):
         if d.get('lys'):
             d['lys'] = [tuple(x) for x in d['lys']]
         s = c08.build(d, ctx.seed)
+    elif case['src'] == 'altcopy':
+        s = corpus.build(case['d'], ctx.seed)
+        items = list(s.items)
+        k = next(i for i, it in enumerate(items) if not isinstance(it, str) and it.name == 'CB')
+        b = items[k].clone()
+        items[k].alt, b.alt = 'A', 'B'
+        b.x += 300
+        items.insert(k + 1, b)
+        s = gen.S(items)
+    elif case['src'] == 'closeion':
+        s = gen.pair(case['a'], case['ion'], case['dist'], level='mid', offset=gen.seed_offset(ctx.seed))
     elif case['src'] == 'repeat':
         one = corpus.build(case['d'], ctx.seed)
         if case.get('second'):
